@@ -440,6 +440,34 @@ def runUpdates (env : Env) (c : Client) : List (Header × Int) → Client
     | .ok c' => runUpdates env c' rest
     | _ => runUpdates env c rest
 
+/-! ### keeper `UpgradeClient` + tendermint `UpgradeState` -/
+/-- The stored client state is *replaced* by the proposal's client state (a validated configuration, typically the
+    same chain-id family at the next revision; the keeper itself compares only the client type), `UpgradeState`
+    writes processed time and iteration key for the new latest height, and the keeper stores the supplied consensus
+    state there.  Nothing else in the client store is touched, so consensus states of several revisions coexist. -/
+def upgradeClient (c : Client) (cs : ClientState) (k : ConsState) (now : Int) : Client :=
+  { cs := cs,
+    st := { cons := insert cs.latest k c.st.cons,
+            ptime := insert cs.latest (toU64 now) c.st.ptime,
+            iter := insert cs.latest () c.st.iter } }
+
+/-- one step of a client's life after creation -/
+inductive Step where
+  | update (hd : Header) (now : Int)
+  | upgrade (cs : ClientState) (k : ConsState) (now : Int)
+
+def applyStep (env : Env) (c : Client) : Step → Client
+  | .update hd now =>
+    match updateClient env c hd now with
+    | .ok c' => c'
+    | _ => c
+  | .upgrade cs k now => upgradeClient c cs k now
+
+/-- histories of updates (accepted or rejected) interleaved with upgrades -/
+def runSteps (env : Env) (c : Client) : List Step → Client
+  | [] => c
+  | s :: rest => runSteps env (applyStep env c s) rest
+
 /-! ### `VerifyPacketCommitment` : `produceVerificationArgs`, `verifyDelayPeriodPassed`, membership -/
 def verifyMembership (env : Env) (c : Client) (h : Height) (proof : Option Bytes) (path value : Bytes) (now : Int) :
     Outcome Unit := do
